@@ -4,18 +4,29 @@ CHECK = {
         "storage faults are injected at the logical.Storage interface of the mount (the k-th operation of the calling goroutine fails once, or everything fails from the k-th on and the backend is re-created): models an error/crash of the storage layer, not torn writes",
         "wall clock: obligations on a serial end 3 s before the certificate's notAfter; CRL thisUpdate may be up to 2 s ahead",
         "golang.org/x/crypto/ocsp and crypto/x509 CRL parsing are trusted",
+        "elapsed intervals are simulated, not waited for: the CRL builder's last delta-rebuild check time and the backend's last-tidy time are moved back (in-package) before a periodic tick; already-expired certificates are obtained by issuing with not_after in the past (role with not_before_duration 3h) and revoked through allow_expired_cert_revocation",
+        "schedules unit: requests are interleaved at the granularity of physical storage operations (verifx.Sched); the tidy request is represented by its body (doTidyRevocationStore + doTidyRebuildCRL) run in the task's goroutine, because the real one runs in a goroutine of its own that cannot be gated",
+        "while the issuers of a CRL lack crl-signing nothing new is demanded of that CRL (it must still be served and keep its entries); revocations of that period are owed by the first complete CRL built after the usage is back, not by a delta CRL (a complete rebuild clears the delta WAL also for the issuers it skipped)",
     ],
     "units": [
-        unit("history", "pki", ["pki/cx_common_test.go", "pki/c16_revoke_test.go"], "^TestVerif_C16_History$",
+        unit("history", "pki", ["pki/cx_common_test.go", "pki/c16_revoke_test.go", "pki/c16_ext_test.go"], "^TestVerif_C16_History$",
              quick={"checks": 150, "steps": 25, "shards": 1, "cap": 600},
              thorough={"checks": 500, "steps": 40, "shards": 16, "cap": 1500},
              # serial numbers, issuer ids and the code's own map iteration order are random, so the k-th storage
              # operation of a call is not the same operation when rapid re-runs a case; every verdict is a fact
              # about responses actually served, so an unreproduced failure still counts.
              flaky_is_violation=True),
-        unit("fault-all-k", "pki", ["pki/cx_common_test.go", "pki/c16_revoke_test.go"], "^TestVerif_C16_FaultAllK$",
+        unit("fault-all-k", "pki", ["pki/cx_common_test.go", "pki/c16_revoke_test.go", "pki/c16_ext_test.go"], "^TestVerif_C16_FaultAllK$",
              quick={"checks": 8, "shards": 1, "cap": 600},
              thorough={"checks": 40, "shards": 16, "cap": 1500},
+             flaky_is_violation=True),
+        unit("schedules", "pki", ["pki/cx_common_test.go", "pki/c16_revoke_test.go", "pki/c16_ext_test.go"], "^TestVerif_C16_Schedules$",
+             quick={"checks": 14, "shards": 1, "cap": 600},
+             thorough={"checks": 40, "shards": 16, "cap": 1500},
+             flaky_is_violation=True),
+        unit("delta-tidy", "pki", ["pki/cx_common_test.go", "pki/c16_revoke_test.go", "pki/c16_ext_test.go"], "^TestVerif_C16_DeltaTidy$",
+             quick={"checks": 25, "shards": 1, "cap": 600},
+             thorough={"checks": 150, "shards": 8, "cap": 1500},
              flaky_is_violation=True),
     ],
 }
